@@ -343,9 +343,21 @@ def stream_items(tier, seed, want):
                 for g2 in gen.insert_at_nodes(g, w)[:2]:
                     for g3 in gen.insert_at_nodes(g2, lambda a: ('mwstate', a))[:2]:
                         add(g3, inp01)
+    if 'state' in want:
+        # negative lookahead whose inner parser fails AFTER consuming: whatever it pulled must be gone from the inspector before
+        # parsing continues (a `not` in sequence position, in a repetition, under and_is)
+        A_, B_ = gen.A, gen.B
+        for inner in [('just', [A_, B_]), ('then', ('any',), ('just', [B_])), ('then', ('just', [A_]), ('then', ('just', [A_]), ('just', [B_]))),
+                      ('collect', 'vec', ('rep', ('just', [A_]), 2, None)), ('then', ('just', [A_]), ('ornot', ('just', [B_])))]:
+            nt = ('not', inner)
+            for g in [('then', nt, ('mwstate', ('any',))), ('then', ('mwstate', nt), ('mwstate', ('any',))),
+                      ('collect', 'vec', ('rep', ('then', nt, ('mwstate', ('any',))), 0, None)),
+                      ('then', ('andis', ('any',), nt), ('mwstate', ('ornot', ('any',)))),
+                      ('then', ('ornot', ('then', nt, ('just', [B_]))), ('mwstate', ('ornot', ('any',))))]:
+                add(g, inputs_all(4, [A_, B_, gen.EA]), prio=True)
     if 'ctx' in want:
         for g in gen.ctx_family():
-            add(g, inputs_all(5, [gen.A, gen.B, 50, 51]))
+            add(g, inputs_all(5, [gen.A, gen.B, 50, 51]), prio=True)
         pool = base[:500]
         for g in pool:
             for g2 in gen.insert_at_nodes(g, lambda a: ('mwctx', a))[:2]:
@@ -414,6 +426,22 @@ class C04(Prop):
             kind = kw.pop('kind', 'str' if n % 2 == 0 else 'slice')
             lines.append(case_line(f'x{n}p', g, inputs, kind=kind, mode='parse', **kw))
             lines.append(case_line(f'x{n}c', g, inputs, kind=kind, mode='check', **kw))
+        # a memoized parser shared through a definition, succeeding while it emits, abandoned by the enclosing choice and visited
+        # again at the same position: whatever the memo table remembers, check() must report what parse() reports
+        A_, B_, E_ = ('just', [gen.A]), ('just', [gen.B]), ('just', [gen.EA])
+        n = len(lines)
+        minp = inputs_all(4, [gen.A, gen.B, gen.EA])
+        for x in [('any',), A_, ('then', ('any',), ('ornot', B_)), ('collect', 'vec', ('rep', A_, 1, None))]:
+            for em in gen.EMITTERS + gen.RECOVERIES[:1] + [lambda a: ('maperr', 4, a)]:
+                d = ('memo', 52, em(x))
+                c = ('call', 0)
+                for main in [('or', ('ithen', c, B_), ('ithen', c, A_)), ('or', ('then', c, B_), ('then', c, E_)),
+                             ('choices', [('then', c, B_), ('then', c, A_), ('then', c, E_)]),
+                             ('then', ('rewind', c), ('ignored', c)),
+                             ('collect', 'vec', ('rep', ('or', ('ithen', c, B_), ('ithen', c, A_)), 0, None))]:
+                    lines.append(case_line(f'x{n}p', main, minp, mode='parse', defs=[d]))
+                    lines.append(case_line(f'x{n}c', main, minp, mode='check', defs=[d]))
+                    n += 1
         # value-building formulations
         pairs = []
         smalls = gen.C01_LEAVES[:10]
@@ -631,7 +659,7 @@ class C03(SpecProp):
                   'PEG reading (every token consumed), no-output implies an error, into_result consistency; the real ParseResult '
                   'accessors compared on every case')
 
-    bins = ['h_str_rich', 'h_slice_rich', 'h_stream_rich', 'h_mstream_rich']
+    bins = ['h_str_rich', 'h_slice_rich', 'h_stream_rich', 'h_mstream_rich', 'h_kinds_rich']
 
     def cases(self, tier, seed):
         lines = SpecProp.cases(self, tier, seed)
@@ -658,6 +686,15 @@ class C03(SpecProp):
         for n, g in enumerate(longg):
             for kd in ('slice', 'stream', 'mstream1'):
                 lines.append(case_line(f'L{n}{kd}', g, linp, kind=kd, fuel=6000))
+        # an IoInput whose reader hands out two bytes at a time and reports a transient `Interrupted` every third call: end of
+        # input is only where the reader says 0 bytes — all short inputs, and every one-token extension among them
+        ioinp = inputs_all(5 if tier == 'quick' else 6, [A, B])
+        iog = [('just', [A, B]), ('then', ('just', [A]), ('just', [B])), ('collect', 'count', ('rep', ('just', [A]), 0, None)),
+               ('then', ('collect', 'count', ('rep', ('just', [A]), 0, None)), ('ornot', ('just', [B]))),
+               ('collect', 'vec', ('sep', ('just', [A]), ('just', [B]), 0, None, False, True)),
+               ('or', ('just', [A, B, A]), ('just', [A, B])), ('lazy', ('just', [A, B]))]
+        for n, g in enumerate(iog):
+            lines.append(case_line(f'I{n}io', g, ioinp, kind='iomap'))
         # the contract is the same through check(): every grammar that can succeed with non-fatal errors (recovery, validate)
         # is also run in check mode — an error-free check() must mean exactly what an error-free parse() means
         extra = []
@@ -1188,7 +1225,8 @@ class C20(Prop):
         import vcheck
         tot, fails = vcheck.run_cases(self.name, lines, jobs=jobs, timeout=900 if tier == 'quick' else 3600)
         # "no stack exhaustion": recursion and Pratt operator chains nested 10^5 deep on a 512 KiB thread (runtime evidence)
-        deep_probes(self, tot, fails, tier, jobs)
+        if len(lines) >= 10:
+            deep_probes(self, tot, fails, tier, jobs)
         return tot, fails
     rule = ('union of all streams (C01, repetition incl. nullable items, emitters, recovery, decorations, context, state, four error '
             'kinds) on exhaustive small inputs, plus malformed inputs: random strings over the full Unicode range incl. combining marks, '
@@ -1592,15 +1630,33 @@ def deep_probes(prop, tot, fails, tier, jobs):
 
 class C12(Prop):
     name = 'C12'; module = 'C12'; claimed = True
-    bins = ['h_str_rich', 'h_slice_rich', 'h_deep']
+    bins = ['h_str_rich', 'h_slice_rich', 'h_deep', 'h_nested']
 
     def custom_run(self, lines, tier, seed, jobs):
         import vcheck, multiprocessing
-        tot, fails = vcheck.run_cases(self.name, lines, jobs=jobs, timeout=900 if tier == 'quick' else 3600)
+        given = [l for l in lines if l.startswith(('NH ', 'EX '))]
+        tot, fails = vcheck.run_cases(self.name, [l for l in lines if not l.startswith(('NH ', 'EX '))], jobs=jobs,
+                                      timeout=900 if tier == 'quick' else 3600)
         # runtime part (supporting evidence, not a theorem): every recursion site goes through the stack-growing guard, so a
         # parser nested 10^5 (thorough: 10^6) levels deep returns on a 512 KiB thread; an unguarded site overflows and kills the probe
-        deep_probes(self, tot, fails, tier, jobs)
-        return tot, fails
+        replaying = len(lines) < 10          # a replay / a shrinking step: only the lines given
+        if not replaying:
+            deep_probes(self, tot, fails, tier, jobs)
+        # recursion ACROSS input boundaries: a recursive handle (declare / define) whose body is a nested parse that contains
+        # the handle again — token trees of every depth, positions restart at 0 in every nested input (C16's general-form
+        # lines; the unrolling is the model's reading applied level by level)
+        t = C16()
+        t.name = 'C12'
+        nl = given if replaying else [l for l in t.cases(tier, seed) if l.startswith(('NH ', 'EX ')) and
+                                      ' call 0' in l.partition(' A ')[2].partition(' B ')[0]]
+        t2, f2 = t.custom_run(nl, tier, seed, jobs) if nl else ({'pairs': 0, 'pred_fail': 0, 'corr_disagree': 0, 'nontrivial': 0, 'outcomes': {}}, [])
+        for k in ('pairs', 'pred_fail', 'corr_disagree', 'nontrivial'):
+            tot[k] += t2[k]
+        for k, v in t2['outcomes'].items():
+            tot['outcomes']['nested:' + k] = tot['outcomes'].get('nested:' + k, 0) + v
+        if t2.get('crash'):
+            tot['crash'] = t2['crash']
+        return tot, fails + f2
 
     title = 'recursive parsers equal their unrolling and nest to any depth'
     rule = ('guarded recursive grammar families (single and mutually recursive definitions; recursion under delimiters, repetition, '
@@ -1778,7 +1834,10 @@ class C13(Prop):
 
     def custom_run(self, lines, tier, seed, jobs):
         import multiprocessing, vcheck
-        ctot, cfails = vcheck.run_cases(self.name, self.clone_lines(tier, seed), jobs=jobs, timeout=900)
+        replaying = len(lines) < 10          # a replay / a shrinking step: only the lines given
+        given = [l for l in lines if l.split(' ', 1)[0].startswith('k')]
+        lines = [l for l in lines if not l.split(' ', 1)[0].startswith('k')]
+        ctot, cfails = vcheck.run_cases(self.name, given if replaying else self.clone_lines(tier, seed), jobs=jobs, timeout=900)
         n = max(1, min(jobs, len(lines)))
         chunks = [lines[i::n] for i in range(n)]
         thread_cmds = ['WRAPPERS'] + ['THREADS %d %d' % (t, 40 if tier == 'quick' else 400) for t in (2, 4, 8)]
@@ -2360,6 +2419,21 @@ class C19(Prop):
                 for mode in ('parse', 'check'):
                     lines.append(case_line(f't{n}', v, inp01, kind='str' if n % 2 == 0 else 'slice', mode=mode))
                     n += 1
+        # MANY tracked items held by a consumer that then never gets to use them (the tail / the next parser fails, or an
+        # enclosing choice backtracks): runs of 0..9 items — buffers that change representation with their length
+        item = TRACK(('just', [gen.A]))
+        tail = ('just', [gen.B])
+        runs = ' '.join(inputs_lit([gen.A] * k) + ' ' + inputs_lit([gen.A] * k + [gen.B]) + ' ' + inputs_lit([gen.A] * k + [gen.COMMA])
+                        for k in range(10))
+        for it in [('rep', item, 0, None), ('rep', item, 2, 7), ('sep', item, ('just', [gen.COMMA]), 0, None, False, True)]:
+            held = [('foldr', 'fpair', it, tail), ('foldrw', it, tail), ('foldr', 'fpair', it, TRACK(tail)),
+                    ('then', ('collect', 'vec', it), tail), ('then', ('foldl', 'fpair', TRACK(('empty',)), it), tail),
+                    ('then', ('collectx', 3, it), tail), ('then', ('collect', 'vec', ('enum', it)), tail)]
+            for h_ in held:
+                for g in (h_, ('or', h_, ('collect', 'count', ('rep', ('any',), 0, None))), ('ornot', h_)):
+                    for mode in ('parse', 'check'):
+                        lines.append(case_line(f't{n}', g, runs, kind='str' if n % 2 == 0 else 'slice', mode=mode))
+                        n += 1
         return lines
 
     def custom_run(self, lines, tier, seed, jobs):
@@ -2391,6 +2465,26 @@ class C19(Prop):
         for l in lines:
             t = l.split(' ', 2)
             by_id[t[1] if t[0] == 'DR' else t[0]] = l
+        # a double free or a use of freed memory kills the harness process and takes the observations of everything queued
+        # behind it along: every case line with a missing observation is run again in a process of its own; the first input that
+        # is still missing there is the one the process dies on
+        lost = []
+        for key in model:
+            cid = key.rpartition('.')[0]
+            if key not in impl and cid in by_id and cid not in lost:
+                lost.append(cid)
+        died = {}
+        if lost:
+            with multiprocessing.Pool(jobs) as pool:
+                again = pool.map(_drop_worker, [[by_id[c]] for c in lost[:600]])
+            for c, (rci, oi, ei, rcm, om) in zip(lost[:600], again):
+                for l in oi.split('\n'):
+                    sp = l.split(' ', 2)
+                    if len(sp) == 3 and sp[1] == 'M':
+                        impl[sp[0]] = sp[2]
+                ks = sorted(int(key.rpartition('.')[2]) for key in model if key.rpartition('.')[0] == c and key not in impl)
+                if ks:
+                    died[c] = ks[0]
         for key, mo in model.items():
             cid, _, k = key.rpartition('.')
             line = by_id.get(cid)
@@ -2400,6 +2494,13 @@ class C19(Prop):
             a = impl.get(key)
             tot['pairs'] += 1
             if a is None:
+                if cid in died:
+                    if k == died[cid]:
+                        tot['pred_fail'] += 1
+                        self.fail(tot, fails, 'pred', line if not line.startswith('DR') else None, k,
+                                  f'the process DIES while parsing this input (abort: double free / freed memory used / stack overflow), '
+                                  f'run alone in a process of its own || {line.partition(" I ")[0]} input #{k} {input_of(line, k)}')
+                    continue      # inputs queued behind the fatal one in the same process: not observed
                 fails.append(('missing', line if not line.startswith('DR') else None, k, f'{key}: no implementation observation ({line[:60]})'))
                 continue
             if line.startswith('DR'):
@@ -2524,7 +2625,7 @@ class C07(Prop):
                   'matches and between the neighbouring tokens for gapped inputs (Lean); outputs of the real crate compared with reading '
                   'and model, spans checked against the input and for nesting; slices observed as pointer offsets')
 
-    bins = ['h_str_rich', 'h_slice_rich', 'h_mapped_rich', 'h_stream_rich', 'h_mstream_rich', 'h_inputs']
+    bins = ['h_str_rich', 'h_slice_rich', 'h_mapped_rich', 'h_stream_rich', 'h_mstream_rich', 'h_inputs', 'h_str_empty', 'h_slice_empty']
 
     def custom_run(self, lines, tier, seed, jobs):
         import vcheck
@@ -2533,7 +2634,7 @@ class C07(Prop):
         # spans of single pulls, from the first cursor, of empty matches, and of older cursor pairs asked again later
         t = C10()
         t.name = 'C07'
-        il = [l for l in t.cases(tier, seed) if l.startswith('IN ') and l.split(' ')[2] == 'iterspan']
+        il = [] if len(lines) < 10 else [l for l in t.cases(tier, seed) if l.startswith('IN ') and l.split(' ')[2] == 'iterspan']
         t2, f2 = t.custom_run(il, tier, seed, jobs)
         for k in ('pairs', 'pred_fail', 'corr_disagree', 'nontrivial'):
             tot[k] += t2[k]
@@ -2572,7 +2673,41 @@ class C07(Prop):
                     kind = 'str' if n % 2 == 0 else 'slice'      # to_slice needs a SliceInput
                 lines.append(case_line(f'p{n}', v, inputs, kind=kind))
                 n += 1
+        # the span a SUCCEEDING `try_map` closure receives (`!t…`, harness-only) is the span `map_with` reports for the same node
+        # (`t…`), under Rich and under the zero-sized error type (which has fast paths of its own)
+        subs = [('any',), ('just', [gen.A, gen.EA]), ('then', ('any',), ('ornot', ('just', [gen.B]))),
+                ('collect', 'vec', ('rep', ('oneof', [gen.A, gen.EA]), 1, None)), ('ornot', ('just', [gen.A])),
+                ('ithen', ('just', [gen.EA]), ('any',)), ('or', ('just', [gen.A, gen.B]), ('just', [gen.A]))]
+        restc = ('collect', 'string', ('rep', ('any',), 0, None))
+        inp3 = inputs_all(4, [gen.A, gen.B, gen.EA])
+        for si, sub in enumerate(subs):
+            for ek in ('rich', 'empty'):
+                for kind in ('str', 'slice'):
+                    for shape in (lambda c: ('then', c, restc), lambda c: ('then', ('any',), ('then', c, restc)),
+                                  lambda c: ('collect', 'vec', ('rep', ('then', c, ('just', [gen.B])), 0, None))):
+                        lines.append(case_line(f't{n}', shape(('mwspan', sub)), inp3, kind=kind, ek=ek))
+                        lines.append(case_line(f'!t{n}', shape(('trymapspan', sub)), inp3, kind=kind, ek=ek))
+                        n += 1
         return lines
+
+    def group_of(self, line):
+        return line.split(' ', 1)[0].lstrip('!')
+
+    def check_chunk(self, by_id, impl, model, stats, fails):
+        super().check_chunk(by_id, impl, model, stats, fails)
+        for key, io in impl.items():
+            if not key.startswith('!'):
+                continue
+            cid, _, k = key.rpartition('.')
+            a, b = io.get('M'), impl.get(key[1:], {}).get('M')
+            stats['pairs'] += 1
+            stats['nontrivial'] += 1
+            if a is None or b is None:
+                fails.append(('missing', by_id.get(cid), int(k), 'no implementation observation (crash / hang?)'))
+            elif a != b:
+                stats['pred_fail'] += 1
+                self.fail(stats, fails, 'pred', [(by_id.get(cid), int(k)), (by_id.get(cid[1:]), int(k))], int(k),
+                          f'TRY_MAP-SPAN: the span handed to a succeeding try_map closure: {a} || the span map_with reports for the same node: {b}')
 
     def compare(self, line, k, impl_M, model_M, spec_S):
         im, mm, ss = parse_M(impl_M), parse_M(model_M), parse_S(spec_S)
